@@ -13,6 +13,8 @@ subprocess.run(["python3", os.path.join(vlib.VERIF, "tools", "gen_rolling_table.
 
 import gen_selftest
 gen_selftest.main(["--quiet"])
+import gen_selftest_generic
+gen_selftest_generic.main(["--quiet"])
 
 import check
 check.wrap_generate()
